@@ -137,7 +137,10 @@ def run(F, R):
         after_lock = es.dominates(lk.bb, bd.bb) and any(es.dominates(lk.bb, c.bb) and es.dominates(c.bb, bd.bb) for c in fresh2)
         # one process-wide lock: the mutex is a `static`, not a value looked up per path spelling
         lock_static = k9.kexpr(es, lk.args[0]).startswith("#") or any(isinstance(rv[1], dict) and "static" in rv[1] for i, j, dst, rv, line in es.stmts() if rv[0] == "use" and derives_from(es, [lk.args[0]], lambda k, x, d=dst: (k == "place" and x == d) or None))
-        R.check(lock_static, "C20.R4", "ensure_sidecar:lock-is-process-wide-static", "builders are serialised by a lock that is not one process-wide static: two spellings of the same file (symlink, `..`) take different locks and build into the same staging directory", es.loc(lk.bb), dict(lock=k9.kexpr(es, lk.args[0])[:80]))
+        # also fine: a per-file lock looked up under the file's canonical identity (every spelling maps to one lock)
+        lock_canonical = bool(derives_from(es, [lk.args[0]], lambda k, x: (k == "call" and x.name.rsplit("::", 1)[-1] == "canonicalize" and x) or None))
+        lock_static = lock_static or lock_canonical
+        R.check(lock_static, "C20.R4", "ensure_sidecar:lock-is-process-wide-static", "builders are serialised by a lock that is neither one process-wide static nor looked up under the canonicalised path: two spellings of the same file (symlink, `..`) take different locks and build into the same staging directory", es.loc(lk.bb), dict(lock=k9.kexpr(es, lk.args[0])[:80]))
         R.check(bool(guard_locals) and not early and after_lock, "C20.R4", "ensure_sidecar:guard-held-across-build", "the BUILD_LOCK guard is dropped before the re-check/build (or the re-check is missing): two threads can build the same sidecar", es.loc(lk.bb), dict(guard_locals=guard_locals, early_drops=early))
 
 
